@@ -238,6 +238,28 @@ struct GetCallablePrototypeMaxSize <HeterTuple<>, Record>
 	enum { value = 1 }; // set minimum size to 1 instead of 0
 };
 
+// Drop the first N types of a HeterTuple
+template <int N, typename List>
+struct SkipHeterTuple;
+
+template <int N, typename First, typename ...Others>
+struct SkipHeterTuple <N, HeterTuple<First, Others...> >
+{
+	using Type = typename SkipHeterTuple<N - 1, HeterTuple<Others...> >::Type;
+};
+
+template <typename First, typename ...Others>
+struct SkipHeterTuple <0, HeterTuple<First, Others...> >
+{
+	using Type = HeterTuple<First, Others...>;
+};
+
+template <int N>
+struct SkipHeterTuple <N, HeterTuple<> >
+{
+	using Type = HeterTuple<>;
+};
+
 template <typename List, typename Item>
 struct PrependHeterTuple;
 
